@@ -51,10 +51,16 @@ MANIFEST = dict(
           "PCfg.voidAll/voidTags, driver op tripc); element names a refactoring might add to a cdata set (iframe, xmp, noembed, "
           "noframes, plaintext, noscript, textarea, title, template) with entity look-alikes and tag-like text inside; a bytes "
           "stream (Python oracle only): encode(enc) for eleven encodings, the bytes parsed again with from_encoding=enc or via the "
-          "rewritten <meta charset>, same tree demanded."),
+          "rewritten <meta charset>, same tree demanded. THROUGH THE TOKENIZER MODEL (C04): on the decidable class RenderWritable "
+          "the text the 'minimal' formatter writes is character for character a text C04's writer writes under explicit choices "
+          "(render_is_written), hence the code-mirror of CPython's tokenizer makes of it the callbacks of the written document "
+          "(rendered_text_callbacks) and adapter + builder give the normal form (reparse_roundtrip_tokenized, "
+          "normalise_is_c04_normalise, reparse_roundtrip_tokenized_normalise); the driver op `written` returns the class bit "
+          "and the writer's text, compared with the real decode() on every round-trip case (about 42 % of the cases are inside)."),
     design="7/C05",
-    note=("CPython's tokenizer is not modelled: its events for each rendered text are recorded and compared with emitR (tag/"
-          "comment/declaration/PI tokenisation, CDATA-content mode); character data and attribute values are read back through "
+    note=("Outside RenderWritable (script/style, attribute values with < > or a lone double quote, <x/> for non-void names, "
+          "<br></br>, the 'html' formatter) CPython's tokenizer enters as the recorded stream: its events for each rendered text "
+          "are compared with emitR (tag/comment/declaration/PI tokenisation, CDATA-content mode); character data and attribute values are read back through "
           "C09's reader models in the Lean theorems. Representable is conservative (see Props docstring); it is preserved by the "
           "normal form (representable_normal_form), so parse_render_idempotent has no hypothesis about the intermediate tree. "
           "DoctypeStable is necessary and sufficient for idempotence; the doctype newline makes the unrestricted statement "
@@ -1159,6 +1165,27 @@ def roundtrip_checks(ctx, batch, recipe, root, el_index, el, stream, parsed):
             # outside the property's quantifier: run, record what happens
             same = got == o_normalise(forest)
             ctx.count(f"excluded-outcome:{reason}:{'same-tree' if same else 'different-tree'}")
+        if f == "minimal":
+            # the class on which the rendered text is a text of C04's writer (render_is_written / reparse_roundtrip_tokenized)
+            wreq = f"c05 written {cfg_tok()} {'x' if xml else 'h'} {fmt_tok(f)} {tree_tokens(wrap_root(forest))}"
+
+            want_w = o_normalise(forest, decl_as_pi=True)        # now: the configuration of the case is current
+
+            def on_written(rep, text=text, got=got, want_w=want_w, case=case, wreq=wreq, stream=stream):
+                fields = dict(p.split("=", 1) for p in rep.split(" # "))
+                if fields.get("rw") != "1":
+                    ctx.count(f"written:{stream}:outside")
+                    return
+                ctx.count(f"written:{stream}:inside")
+                if fields.get("text") != cps(text):
+                    ctx.corr_disagreements += 1
+                    ctx.violation("RenderWritable tree: decode() is not the text C04's writer writes under minimalChoices (render_is_written)",
+                                  case=dict(case, request=wreq), expected="writer: " + ascii(uncps_local(fields.get("text", "-"))),
+                                  observed="real: " + ascii(text), stream=stream, no_failing_input=True)
+                if got != want_w:
+                    ctx.violation("RenderWritable tree: the real re-parse is not the normal form (reparse_roundtrip_tokenized)",
+                                  case=case, expected=ascii(want_w), observed=ascii(got), stream=stream)
+            batch.add(wreq, on_written)
         if f != "minimal" and el_index != 0:
             continue
         # Lean side
